@@ -47,7 +47,7 @@ Proof.
   - apply overflows_false. apply N.leb_gt. exact E.
 Qed.
 
-Global Opaque build_unlocked data_of state_of lock_of wrap64 wrap60 overflows.
+Global Opaque build_unlocked data_of state_of lock_of wrap64 wrap60 overflows INT64TOINT60.
 
 Ltac side :=
   first [ assumption | apply build_lt | (apply lock_of_build; reflexivity) | (apply state_of_build; reflexivity)
@@ -64,7 +64,7 @@ Ltac start_op Hl Hs :=
   unfold step_var, call, readFF, readFF_nb, readFE, readFE_nb, writeF, writeEF, writeEF_nb, fill, empty, incrF, status,
          readFF_locked_full, readFE_locked_full, writeEF_locked_empty, empty_with_waiters, fill_with_waiters,
          gotlock_fill, gotlock_empty, fill_state, mwaitc, syncvar_remove, all_empty, get_or_new, addrstat_new, prepend;
-  cbn [word rec EFQ FEQ FFQ]; rewrite ?Hl, ?Hs; cbn.
+  cbn [word rec EFQ FEQ FFQ]; rewrite ?Hl, ?Hs, ?int60_wrap64; cbn.
 
 Ltac ov_split := try match goal with |- context [overflows ?v] => destruct (overflows v) eqn:Hov end.
 
@@ -88,10 +88,6 @@ Definition abs (x : svar) : astate :=
   let m := get_or_new (rec x) in
   mkA (mkC (negb (N.testbit (state_of (word x)) 1)) (data_of (word x))) (EFQ m) (FEQ m) (FFQ m).
 
-(* the one place where the code leaves the clean spec: incrF whose sum reaches 2^60 (see incrF_wrap_refuted_l) *)
-Definition incr_in_range (x : svar) (o : op) : Prop :=
-  match o with IncrF inc => data_of (word x) + inc < two60 | _ => True end.
-
 Lemma wrap64_small60 : forall a, a < two60 -> wrap64 a = a.
 Proof.
   intros a H. Transparent wrap64. unfold wrap64. Opaque wrap64. apply N.mod_small.
@@ -102,39 +98,28 @@ Ltac norm_words :=
   repeat first
     [ rewrite state_of_build by reflexivity
     | rewrite data_of_build by reflexivity
-    | rewrite wrap64_small60 by assumption
+    | rewrite wrap60_idem
     | rewrite wrap60_small by first [ assumption | (apply data_of_lt; assumption) | (apply overflows_false; assumption)
                                      | match goal with H : vals_ok (?X :: _) |- w_val ?X < two60 => inversion H; assumption end ] ].
 
 Lemma step_refines : forall x t o x' evs,
-  shape x -> incr_in_range x o -> step_var x t o = (x', evs) -> spec_step (abs x) t o = (abs x', evs).
+  shape x -> step_var x t o = (x', evs) -> spec_step (abs x) t o = (abs x', evs).
 Proof.
-  intros x t o x' evs Hx Hg Hstep.
+  intros x t o x' evs Hx Hstep.
   destruct Hx as [w Hw Hl Hs | w X es Hw Hl Hs Hv | w Hw Hl Hs | w fe ff Hw Hl Hs Hne].
   - destruct o; revert Hstep; unfold spec_step, rejected, abs, wake, after; rewrite <- ?overflows_leb;
       start_op Hl Hs; ov_split; cbn;
-      intro Hstep; inversion Hstep; subst; clear Hstep; cbn in Hg; cbn; rewrite ?Hs; norm_words; unfold release_ff; rewrite ?app_nil_r; cbn; reflexivity.
+      intro Hstep; inversion Hstep; subst; clear Hstep; cbn; rewrite ?Hs; norm_words; unfold release_ff; rewrite ?app_nil_r; cbn; reflexivity.
   - destruct o; revert Hstep; unfold spec_step, rejected, abs, wake, after; rewrite <- ?overflows_leb;
       start_op Hl Hs; ov_split; try (destruct es as [|X2 es]); cbn;
-      intro Hstep; inversion Hstep; subst; clear Hstep; cbn in Hg; cbn; rewrite ?Hs; norm_words; unfold release_ff; rewrite ?app_nil_r; cbn; reflexivity.
+      intro Hstep; inversion Hstep; subst; clear Hstep; cbn; rewrite ?Hs; norm_words; unfold release_ff; rewrite ?app_nil_r; cbn; reflexivity.
   - destruct o; revert Hstep; unfold spec_step, rejected, abs, wake, after; rewrite <- ?overflows_leb;
       start_op Hl Hs; ov_split; cbn;
-      intro Hstep; inversion Hstep; subst; clear Hstep; cbn in Hg; cbn; rewrite ?Hs; norm_words; unfold release_ff; rewrite ?app_nil_r; cbn; reflexivity.
+      intro Hstep; inversion Hstep; subst; clear Hstep; cbn; rewrite ?Hs; norm_words; unfold release_ff; rewrite ?app_nil_r; cbn; reflexivity.
   - destruct o; revert Hstep; unfold spec_step, rejected, abs, wake, after; rewrite <- ?overflows_leb;
       start_op Hl Hs; ov_split; try (destruct fe as [|F1 [|F2 fe]]); cbn;
-      intro Hstep; inversion Hstep; subst; clear Hstep; cbn in Hg; cbn; rewrite ?Hs; norm_words; unfold release_ff; rewrite ?app_nil_r;
+      intro Hstep; inversion Hstep; subst; clear Hstep; cbn; rewrite ?Hs; norm_words; unfold release_ff; rewrite ?app_nil_r;
       cbn in Hne; rewrite ?Hne; cbn; reflexivity.
-Qed.
-
-(* the refinement really needs the guard: incrF past 2^60 returns (and hands to the readers it wakes) the unreduced sum *)
-Lemma incrF_wrap_refuted_l : exists x t inc x' evs,
-  shape x /\ step_var x t (IncrF inc) = (x', evs) /\ spec_step (abs x) t (IncrF inc) <> (abs x', evs) /\
-  evs = [Ret t RC_SUCCESS (Some two60)] /\ data_of (word x') = 0.
-Proof.
-  exists (mkV (build_unlocked (two60 - 1) 0) None), 7, 1.
-  eexists. eexists. split; [|split; [vm_compute; reflexivity|]].
-  - apply Sh0; vm_compute; reflexivity.
-  - split; [vm_compute; discriminate|]. split; vm_compute; reflexivity.
 Qed.
 
 (* ---------- the invariant in the form of DESIGN.md ---------- *)
@@ -225,7 +210,7 @@ Definition fill_op (o : op) (d : N) : option N :=
   match o with
   | Fill => Some d
   | WriteF v | WriteEF v | WriteEF_nb v => if overflows v then None else Some v
-  | IncrF inc => Some (wrap64 (d + inc))
+  | IncrF inc => Some (wrap60 (d + inc))
   | _ => None
   end.
 Definition empty_op (o : op) : bool := match o with Empty | ReadFE _ | ReadFE_nb _ => true | _ => false end.
@@ -289,7 +274,7 @@ Qed.
 Lemma incrF_step_l : forall x t inc x' evs,
   shape x -> step_var x t (IncrF inc) = (x', evs) ->
   shape x' /\ data_of (word x') = wrap60 (data_of (word x) + inc) /\
-  hd Fault evs = Ret t RC_SUCCESS (Some (wrap64 (data_of (word x) + inc))).
+  hd Fault evs = Ret t RC_SUCCESS (Some (wrap60 (data_of (word x) + inc))).
 Proof.
   intros x t inc x' evs Hx Hstep.
   pose proof (step_var_shape _ _ _ _ _ Hx Hstep) as [Hx' _].
@@ -297,7 +282,7 @@ Proof.
   destruct Hx as [w Hw Hl Hs | w X es Hw Hl Hs Hv | w Hw Hl Hs | w fe ff Hw Hl Hs Hne];
     revert Hstep; start_op Hl Hs; try (destruct fe as [|F1 [|F2 fe]]); cbn;
     intro Hstep; inversion Hstep; subst; clear Hstep; cbn; rewrite data_of_build by reflexivity;
-    rewrite wrap60_wrap64; split; reflexivity.
+    rewrite wrap60_idem; split; reflexivity.
 Qed.
 
 (* n incrF calls by any tasks, one after the other (each call is atomic: it holds the word lock) *)
@@ -309,11 +294,11 @@ Fixpoint run_incr (x : svar) (l : list (N * N)) : svar * list (option event) :=
       let '(x2, r) := run_incr x1 rest in (x2, hd_error evs :: r)
   end.
 Definition sum_incs (l : list (N * N)) : N := fold_right (fun p a => snd p + a) 0 l.
-(* what each call must return: the running sum (as a uint64_t) *)
+(* what each call must return: the running sum modulo 2^60, i.e. the payload right after the call *)
 Fixpoint expected_returns (d : N) (l : list (N * N)) : list (option event) :=
   match l with
   | [] => []
-  | (t, inc) :: rest => Some (Ret t RC_SUCCESS (Some (wrap64 (d + inc)))) :: expected_returns (wrap60 (d + inc)) rest
+  | (t, inc) :: rest => Some (Ret t RC_SUCCESS (Some (wrap60 (d + inc)))) :: expected_returns (wrap60 (d + inc)) rest
   end.
 
 Lemma incrF_atomic_l : forall l x x' rets,
@@ -352,14 +337,14 @@ Proof.
   rewrite E1, E2, (sum_incs_perm _ _ Hp). reflexivity.
 Qed.
 
-(* when the sum stays below 2^60 the returned value IS the new value of the variable *)
-Lemma incrF_result_partial_l : forall x t inc x' evs,
-  shape x -> data_of (word x) + inc < two60 -> step_var x t (IncrF inc) = (x', evs) ->
-  hd Fault evs = Ret t RC_SUCCESS (Some (data_of (word x'))) /\ data_of (word x') = data_of (word x) + inc.
+(* the returned value IS the new value of the variable (always, since /repo 70f90aa) *)
+Lemma incrF_returns_new_value_l : forall x t inc x' evs,
+  shape x -> step_var x t (IncrF inc) = (x', evs) ->
+  hd Fault evs = Ret t RC_SUCCESS (Some (data_of (word x'))) /\ data_of (word x') = wrap60 (data_of (word x) + inc).
 Proof.
-  intros x t inc x' evs Hx Hlt Hstep.
+  intros x t inc x' evs Hx Hstep.
   destruct (incrF_step_l _ _ _ _ _ Hx Hstep) as [_ [Hd Hh]].
-  rewrite Hh, Hd, wrap64_small60, wrap60_small by assumption. split; reflexivity.
+  rewrite Hh, Hd. split; reflexivity.
 Qed.
 
 (* ---------- non-blocking twins ---------- *)
